@@ -26,7 +26,7 @@ ASSUME = [
     'raft entries, package main: written by the real (*FSM).Apply; only LogCommand entries with a decodable message payload (Apply never stores other types, Snapshot and the dump reject them); '
     'type State is excluded (Restore treats it as the snapshot state by design)',
     'the decoding loop of (*FSM).Snapshot only uses Type, Data and Index of an entry: it is observed through the compaction decision (timestamp = UnixNano, else id, else index) and the sessions that compacted '
-    'CreateSession entries leave in the snapshot state; Term/Extensions/AppendedAt are observed through Persist+Restore. The compaction cut is pinned with the repository flag -canary_compaction_start (no wall clock in any expected value)',
+    'CreateSession entries leave in the snapshot state; Term/Extensions/AppendedAt are observed through Persist+Restore; the entries that Restore writes (verbatim for a protobuf snapshot, also on a node running with the JSON encoding: rolling upgrade) are read again by a second Snapshot that folds everything old enough. The compaction cut is pinned with the repository flag -canary_compaction_start (no wall clock in any expected value)',
     'text-log dump: dumpLogToDisk1 is called in-process on the real store and output stream; only IRCFromClient entries and their replies produce rows; rows are read back with encoding/csv (texts containing CR are not used there because CSV readers normalise CRLF)',
     'output batches: a recipient set is the set of keys mapped to true (ircserver never stores false); batches with 0 messages and batch id 0 go through the codec only (Add indexes msgs[0]; id 0 is the sentinel batch of the stream); '
     'NextID on the Add/Get path is owned by the stream and checked on the predecessor batch',
@@ -136,7 +136,7 @@ MANIFEST = dict(engine='grid', level='exploration',
        'ProtoMessage and through CopyToProtoMessage into a reused destination (as ConvertToProto does) and as JSON; both protobuf encodings must be byte-identical and NewMessageFromBytes must return the message field by field '
        'from all three, the id replaced by the raft index exactly when it is 0. (2) a grid of raft.Log entries (index, term, type, payload, extensions, append time) is written by the real LevelDB store as JSON, as protobuf, '
        'through StoreLogProto, through ConvertToProto, and by the real FSM.Apply, and read back by GetLog, raftlog.FromBytes, the text-log dump, the decoding loop of FSM.Snapshot and Persist+Restore (protobuf, JSON, JSON snapshot '
-       'restored by a protobuf node); every reader must see the stored entry. (3) output batches of 0..3 messages x 0..3 recipients x texts x ids x NextID go through messageBatch.marshal/unmarshalMessageBatch and through '
+       'restored by a protobuf node, protobuf snapshot restored by a JSON node), and the entries written by Restore are decoded once more by a second Snapshot on the restored node whose state must contain every session it folded; every reader must see the stored entry. (3) output batches of 0..3 messages x 0..3 recipients x texts x ids x NextID go through messageBatch.marshal/unmarshalMessageBatch and through '
        'OutputStream Add/Get (LevelDB and cache) and must keep ids, text bytes, recipient set and NextID.',
   note='Bounds: the value sets listed in the evidence (coverage.parts.*.dims); thorough adds values per dimension (negative timestamps, 75 kB texts, all six raft log types, more recipients). '
        'The Snapshot decoder is observed through its compaction decisions and the resulting session state (it does not use the remaining fields).')
